@@ -81,13 +81,13 @@ func (l Loc) Overlaps(o Loc) bool {
 type Mutation int
 
 const (
-	None            Mutation = iota
-	NegIndexOffByOne         // a[-1] addresses the element before the last
-	NullNotALocation         // a member holding null does not count as a location
-	WildcardMapsOnly         // * does not enumerate array elements
-	DescentSkipsSelf         // ..b does not look at the node the descent starts from
-	DescentOneLevel          // .. only visits direct children
-	NthOnMap                 // [0] on an object addresses its first key in sorted order
+	None             Mutation = iota
+	NegIndexOffByOne          // a[-1] addresses the element before the last
+	NullNotALocation          // a member holding null does not count as a location
+	WildcardMapsOnly          // * does not enumerate array elements
+	DescentSkipsSelf          // ..b does not look at the node the descent starts from
+	DescentOneLevel           // .. only visits direct children
+	NthOnMap                  // [0] on an object addresses its first key in sorted order
 )
 
 // Parse parses the supported subset; anything else is an error.
